@@ -1,6 +1,8 @@
 package main
 
 import (
+	"fmt"
+	"os"
 	"go/ast"
 	"go/token"
 	"go/types"
@@ -59,6 +61,12 @@ func (x *Exec) specEnvAt(s *State, pos token.Pos) *SpecEnv {
 	if old == nil {
 		for p := f.parent; p != nil && old == nil; p = p.parent {
 			old = p.entry
+		}
+	}
+	if old != nil && len(s.oldHeap) > 0 {
+		old = old.clone()
+		for n, term := range s.oldHeap {
+			old.heap[n] = term
 		}
 	}
 	return &SpecEnv{x: x, s: s, old: old, vars: vars, pos: pos, scope: scope, pkg: f.pkg.Types, info: f.pkg.TypesInfo}
@@ -135,6 +143,7 @@ func (x *Exec) dryRun(s *State, run func(d *State) *State) (map[string]bool, map
 // loopHavoc remembers the pre-loop versions of the heap arrays a loop havocs, so that a frame
 // ("locations the loop never writes keep their pre-loop value") can be assumed at the loop head.
 type loopHavoc struct {
+	hadStar  map[string]bool // arrays already written at unknown references before this loop's havoc
 	pre      map[string]string
 	preAlloc string
 	ctr      int
@@ -151,6 +160,30 @@ func invariantTerm(term string, ctr int) bool {
 		}
 	}
 	return true
+}
+
+// replaceSym replaces whole-symbol occurrences of from by to in an SMT term.
+func replaceSym(term, from, to string) string {
+	var b strings.Builder
+	for {
+		i := strings.Index(term, from)
+		if i < 0 {
+			b.WriteString(term)
+			return b.String()
+		}
+		end := i + len(from)
+		boundary := end == len(term) || term[end] == ' ' || term[end] == ')'
+		if i > 0 && term[i-1] != ' ' && term[i-1] != '(' {
+			boundary = false
+		}
+		b.WriteString(term[:i])
+		if boundary {
+			b.WriteString(to)
+		} else {
+			b.WriteString(from)
+		}
+		term = term[end:]
+	}
 }
 
 // loopFrame runs the body once more from the loop-head state (recording only) to learn at which
@@ -201,6 +234,9 @@ func (x *Exec) loopFrame(s *State, lh *loopHavoc, run func(d *State) *State) {
 	for _, name := range sortedKeys(lh.pre) {
 		set := d.wrefs[name]
 		if _, unknown := set["*"]; unknown {
+			if os.Getenv("GOVC_DEBUG_FRAME") != "" {
+				fmt.Fprintf(os.Stderr, "loopFrame: %s written at unknown refs\n", name)
+			}
 			continue
 		}
 		var refs []string
@@ -215,6 +251,11 @@ func (x *Exec) loopFrame(s *State, lh *loopHavoc, run func(d *State) *State) {
 			if fresh[r] {
 				continue
 			}
+			if r == "fresh*" {
+				// an inner loop wrote at references allocated by this function
+				bound = a0
+				continue
+			}
 			if invariantTerm(r, lh.ctr) {
 				refs = append(refs, r)
 				continue
@@ -224,6 +265,21 @@ func (x *Exec) loopFrame(s *State, lh *loopHavoc, run func(d *State) *State) {
 			if x.eng.quickValid(set[r], mkCmp(">=", r, a0)) {
 				bound = a0
 				continue
+			}
+			// a reference read from a location the loop rewrites, which the loop invariant pins to
+			// its pre-loop value: use that value
+			rp := r
+			for n2, pre := range lh.pre {
+				if hv, ok2 := s.heap[n2]; ok2 && hv != pre {
+					rp = replaceSym(rp, hv, pre)
+				}
+			}
+			if rp != r && invariantTerm(rp, lh.ctr) && x.eng.quickValid(set[r], mkEq(r, rp)) {
+				refs = append(refs, rp)
+				continue
+			}
+			if os.Getenv("GOVC_DEBUG_FRAME") != "" {
+				fmt.Fprintf(os.Stderr, "loopFrame: %s written at varying ref %s (candidate %s)\n", name, r, rp)
 			}
 			ok = false
 			break
@@ -236,6 +292,19 @@ func (x *Exec) loopFrame(s *State, lh *loopHavoc, run func(d *State) *State) {
 		for _, r := range refs {
 			conds = append(conds, mkNot(mkEq("r!fr", r)))
 		}
+		if s.wrefs != nil && !lh.hadStar[name] {
+			// inside an enclosing recording run: this loop's havoc was noted as a write at unknown
+			// references; now that they are known, tell the enclosing loop exactly
+			if oset := s.wrefs[name]; oset != nil {
+				delete(oset, "*")
+				for _, r := range refs {
+					oset[r] = s.pc
+				}
+				if bound == a0 {
+					oset["fresh*"] = s.pc
+				}
+			}
+		}
 		s.assume(sf("(forall ((r!fr Int)) (! (=> %s (= (select %s r!fr) (select %s r!fr))) :pattern ((select %s r!fr))))",
 			mkAnd(conds...), cur, lh.pre[name], cur))
 	}
@@ -243,7 +312,12 @@ func (x *Exec) loopFrame(s *State, lh *loopHavoc, run func(d *State) *State) {
 
 // havocLoop forgets everything the loop may write.
 func (x *Exec) havocLoop(s *State, written map[string]bool, wrLocal map[types.Object]bool) *loopHavoc {
-	lh := &loopHavoc{pre: map[string]string{}, preAlloc: s.allocPtr(), ctr: x.eng.ctr}
+	lh := &loopHavoc{pre: map[string]string{}, preAlloc: s.allocPtr(), ctr: x.eng.ctr, hadStar: map[string]bool{}}
+	for n, set := range s.wrefs {
+		if _, ok := set["*"]; ok {
+			lh.hadStar[n] = true
+		}
+	}
 	// earlier iterations may have allocated: the allocation pointer only grows (do this before the
 	// heap is havocked, so that havocked versions may contain references allocated in the loop)
 	{
